@@ -27,15 +27,25 @@ pub(crate) mod verif_c18 {
   pub static mut GLOB_BITS: u128 = 0; // bit k*NSTR+s: pattern k matches text s
   pub const STRS: [&str; NSTR] = ["", "A", "B", "C"];
 
-  pub fn register(ps: &[Pattern]) {
+  // Registers every pattern slot of the vector's allocation (its capacity, which any_vec keeps
+  // concrete and fully initialised), not only the first len(): registry indices stay concrete.
+  pub fn register(ps: &Vec<Pattern>) {
+    let cap = ps.capacity();
     let mut k = 0;
-    while k < ps.len() {
+    while k < cap {
       unsafe {
         assert!(PAT_N < MAXP);
-        PAT_REG[PAT_N] = &ps[k] as *const Pattern;
+        PAT_REG[PAT_N] = ps.as_ptr().add(k);
         PAT_N += 1;
       }
       k += 1;
+    }
+  }
+  pub fn register_one(p: &Pattern) {
+    unsafe {
+      assert!(PAT_N < MAXP);
+      PAT_REG[PAT_N] = p as *const Pattern;
+      PAT_N += 1;
     }
   }
   macro_rules! find_id {
@@ -176,9 +186,15 @@ pub(crate) mod verif_c18 {
       data_tags: any_vec(0, max_tags, || { let (n, v) = any_tag(); DataTag::new(n, v) }),
     }
   }
-  pub fn register_criteria(cs: &[Criterion]) {
+  pub fn register_criteria(cs: &Vec<Criterion>) {
+    let cap = cs.capacity();
     let mut k = 0;
-    while k < cs.len() { register(&cs[k].topics); register(&cs[k].partitions); k += 1; }
+    while k < cap {
+      let c: &Criterion = unsafe { &*cs.as_ptr().add(k) }; // initialised by any_vec up to capacity
+      register(&c.topics);
+      register(&c.partitions);
+      k += 1;
+    }
   }
   pub fn any_rule(max_domains: usize, max_criteria: usize, max_parts: usize) -> Rule {
     Rule {
@@ -274,7 +290,7 @@ pub(crate) mod verif_c18 {
       default_action: any_verdict(),
     };
     let mut k = 0;
-    while k < g.rules.len() { register_rule(&g.rules[k]); k += 1; }
+    while k < g.rules.capacity() { register_rule(unsafe { &*g.rules.as_ptr().add(k) }); k += 1; }
     let (a, dom, topic) = (any_action(), kani::any::<u16>(), any_name());
     let parts: [&str; 0] = [];
     let tags: [(&str, &str); 0] = [];
